@@ -525,6 +525,13 @@ def _store_cases(lf):
                     and len(p_.target.elts) == 2 and unparse(p_.target.elts[1]) == n.value.func.id:
                 call = n
     if call is None:
+        # any other spelling of "the loader for this field" (a helper that yields (match, loader), a local alias ...): the call with the
+        # loader signature (match, rawhalos, halos); where the callee comes from is decided by C05-R8
+        cands = [n for n in walk_no_nested(lf) if isinstance(n, ast.Assign) and isinstance(n.value, ast.Call) and len(n.value.args) == 3 and not n.value.keywords
+                 and [unparse(a_) for a_ in n.value.args[1:]] == ['rawhalos', 'halos'] and len(n.targets) == 1 and isinstance(n.targets[0], ast.Name)]
+        if len(cands) == 1:
+            call = cands[0]
+    if call is None:
         return False, 'loader call not found'
     blk = getattr(call, '_parent', None)
     body = None
